@@ -75,6 +75,12 @@ claim("C11",
       STATIC_NOTE + "Effect summaries for blake3/rand/io/binary/atomic in dep.go. Not decided: PRF security of the keyed hash.",
       "DESIGN.md §4 C11")
 
+claim("C14",
+      "exhaustive-literal rule (ChainKey set on every result / derived / cloned key-material literal), must-depend queries (dep.go) for chain-key accumulation and for Derive (child chain key <- argument, shares <- adjust, Doerner Sender share independent of adjust), aliasing rule (in-place scalar/RID mutators only on fresh objects, with reaching-definition freshness), shape + guard rules for bip32.DeriveScalar",
+      "Decides structurally that the chain key computed by key generation reaches every result and depends on every participant's contribution, that derivation installs the new chain code and moves exactly the shares it must, that derivation/refresh never rewrites the parent's or previous epoch's objects in place (the cause of order-dependent corruption on repeated derivation), and that the BIP-32 child function has the standard's layout. Numeric agreement with BIP-32 vectors and validity of the derived sharing are value-level and NOT decided.",
+      STATIC_NOTE + "Mutator table for curve.Scalar / RID; freshness by reaching definitions. Not decided: numeric conformance.",
+      "DESIGN.md §4 C14")
+
 for p, why in {
     "C01": "not built yet", "C02": "not built yet", "C03": "not built yet", "C04": "not built yet", "C05": "not built yet",
     "C06": "not built yet", "C07": "not built yet", "C08": "not built yet", "C09": "not built yet", "C10": "not built yet",
